@@ -410,7 +410,10 @@ class _SearchIndexer(dict):
             # This way, both `signac find x 4.0` and `signac find x 4` would
             # return jobs where `sp.x` is stored as either 4.0 or 4.
             if isinstance(value, Number) and float(value).is_integer():
-                result_float = index.get(_float(value), set())
+                # An integer beyond 2**53 need not equal the float nearest to it.
+                result_float = (
+                    index.get(_float(value), set()) if float(value) == value else set()
+                )
                 result_int = index.get(int(value), set())
                 result = result_int.union(result_float)
                 if value == 0 or value == 1:
